@@ -1351,6 +1351,13 @@ class Extractor:
         if kind in ('enum', 'struct'):
             _inner_attr_edits(src, segs, kwi, end, self.counts)
         spec = spec or {}
+        # Rule 'raw-ident-rename': a raw identifier such as `r#type` is renamed consistently in every extracted item of the
+        # unit (Verus 0.2026.09.13 aborts in its SMT encoding on a field or parameter called `r#type`); a pure renaming
+        for old_id, new_id in (spec.get('rename_idents') or {}).items():
+            for k in range(start, end + 1):
+                if toks[k].kind == 'ident' and toks[k].text == old_id:
+                    segs.rewrite(toks[k].start, toks[k].end, new_id, 'raw-ident-rename')
+                    self.counts['raw-ident-rename'] = self.counts.get('raw-ident-rename', 0) + 1
         if kind == 'const' and spec.get('static_str'):
             # Rule 'const-str-static': `const X: &str` -> `const X: &'static str` (the elided lifetime of a const IS 'static)
             k = kwi
